@@ -10,6 +10,7 @@ which of them print a VIOLATION. The scratch worktree and its build output are r
 Prints one JSON object.
 """
 import json, os, shutil, subprocess, sys, tempfile, time
+HOME = os.path.dirname(os.path.abspath(__file__))
 
 def sh(cmd, cwd=None, env=None, timeout=1800):
     e = dict(os.environ); e.update(GOFLAGS="-mod=mod", GOPROXY="off", GOSUMDB="off", GOTOOLCHAIN="local")
@@ -52,12 +53,12 @@ def main():
         os.remove(os.path.join(wt, "zz_seed_demo_test.go"))
         pids = [pid]
         if run_all:
-            rc, o = sh(["./check", "--list"], cwd="/verif")
+            rc, o = sh(["./check", "--list"], cwd=HOME)
             pids = [pid] + [p for p in o.split() if p != pid]
         det = {}
         for p in pids:
             t0 = time.time()
-            rc, o = sh(["./check", p, tier], cwd="/verif", env={"VERIF_REPO": wt, "VERIF_SELFTEST_OUT": os.path.join(base, "out")}, timeout=3600)
+            rc, o = sh(["./check", p, tier], cwd=HOME, env={"VERIF_REPO": wt, "VERIF_SELFTEST_OUT": os.path.join(base, "out")}, timeout=3600)
             lines = [l for l in o.splitlines() if l.startswith("VIOLATION") or l.startswith("OK ") or "INCONCLUSIVE" in l or "BUILD FAILED" in l]
             msg = [l for l in o.splitlines() if l.startswith("  ")][:3]
             det[p] = {"exit": rc, "lines": lines[:3], "detail": msg, "wall_s": round(time.time() - t0, 1)}
